@@ -542,8 +542,8 @@ def streams_for(prop, seed, tier, boost=1):
         add('dict-and-generators', ops_dg)
         add('dict-and-generators-debuglog', genmod.with_debug_log(ops_dg))
         add('dict-subclasses', genmod._dict_kinds(ops_dg))
-        ops_pi, groups_pi = G('pih').api_stream(n=15 * k)
-        add('headers-deciding-indexable-per-instance', ops_pi, {'groups': groups_pi, 'env': {'HPACK_VERIF_HDRKIND': 'instance'}})
+        ops_bs2, _g2 = genmod.both_sensitivities_stream(G('pib'), n=6 * k)
+        add('headers-deciding-indexable-per-instance', genmod.api_forms_conn_stream(G('pih'), n=10 * k) + ops_bs2, {'env': {'HPACK_VERIF_HDRKIND': 'instance'}})
         ops_, groups_ = genmod.both_sensitivities_stream(G('bs'), n=6 * k)
         add('both-sensitivities', ops_)
     elif prop == 'C09':
@@ -655,8 +655,8 @@ def streams_for(prop, seed, tier, boost=1):
         add('no-asserts-no-docstrings-warnings-as-errors', ops_b, {'groups': groups_b, 'env': {'PYTHONOPTIMIZE': '2', 'HPACK_VERIF_WARNINGS': 'error', '_PYFLAGS': '-bb'}})
         ops_dk, groups_dk = genmod.dict_dupkey_stream()
         add('dicts-warnings-as-errors', ops_dk, {'groups': groups_dk, 'env': {'HPACK_VERIF_WARNINGS': 'error'}})     # (no -bb here: these dicts mix str and bytes keys of equal hash, which Python itself refuses under -bb)
-        ops_pi, groups_pi = G('pih').api_stream(n=15 * k)
-        add('headers-deciding-indexable-per-instance', ops_pi, {'groups': groups_pi, 'env': {'HPACK_VERIF_HDRKIND': 'instance'}})
+        ops_bs2, groups_bs2 = genmod.both_sensitivities_stream(G('pib'), n=8 * k)
+        add('headers-deciding-indexable-per-instance', ops_bs2, {'groups': groups_bs2, 'env': {'HPACK_VERIF_HDRKIND': 'instance'}})
     if prop not in ('C16', 'C18'):
         add('no-asserts-no-docstrings-warnings-as-errors', oo.get(prop, lambda: G('ooc').conn_stream(n_conn=8 * k))(),
             {'env': {'PYTHONOPTIMIZE': '2', 'HPACK_VERIF_WARNINGS': 'error', '_PYFLAGS': '-bb'}})
